@@ -285,6 +285,9 @@ where
                             }
                         } else if let Err(e) = value.sink.send(to_outbound_send((content, target), server_addr)).await {
                             error!("[udp] send outbound failed; key={:?}, error={}", &_key, e);
+                            // a framed sink keeps the frame it could not send and fails on it again and again:
+                            // end this binding, the next datagram of the application sets up a fresh one
+                            value.relay_task.abort();
                         }
                     }
                 }
